@@ -47,6 +47,20 @@ func genSecret(r *core.Rand) []byte {
 	return r.Bytes(r.Range(1, 8))
 }
 
+// additional data: absent half of the time, mostly short, sometimes longer than any block /
+// hash-block / "small buffer" size an implementation might silently clip at
+func genAD(r *core.Rand) []byte {
+	switch r.Pick(50, 35, 10, 5) {
+	case 0:
+		return nil
+	case 1:
+		return r.Bytes(r.Range(1, 24))
+	case 2:
+		return r.Bytes([]int{31, 32, 33, 63, 64, 65, 127, 128, 129}[r.Intn(9)])
+	}
+	return r.Bytes(r.Range(130, 300))
+}
+
 func genTy(r *core.Rand) string { return []string{"ss", "sb", "bs", "bb"}[r.Intn(4)] }
 
 func planStr(p []int) string {
@@ -193,7 +207,7 @@ func genLine(r *core.Rand) string {
 	secret := genSecret(r)
 	salt := r.Bytes(8)
 	pt := r.Bytes(genLen(r))
-	ad := r.Bytes(r.Intn(2) * r.Range(0, 24))
+	ad := genAD(r)
 	switch r.Pick(7, 3, 14, 6, 6, 3, 14, 6, 10, 22, 3, 3, 5) {
 	case 0:
 		return fmt.Sprintf("enc-cbc %s %s %s %s", ty, hx(salt), hx(secret), hx(pt))
